@@ -1,0 +1,7 @@
+//go:build verif
+
+package expr
+
+// Exported wrappers used only by the external verification harness (build tag verif).
+
+func VerifMatchLikePattern(text, pattern string) bool { return matchLikePattern(text, pattern) }
